@@ -6,3 +6,11 @@ for c in $(./sim/target/checked/focasim list); do
   out=$(./check $c --tier $tier 2>&1); code=$?
   echo "$c exit=$code $(echo "$out" | grep -E "^C[0-9]+: " | tail -1) $(echo "$out" | grep -cE '^KNOWN-FINDING') known $(echo "$out" | grep -E '^VIOLATION' | head -2 | tr '\n' ' ')"
 done
+# what the monitors of OTHER properties saw in each check's scenarios (expected: nothing); triage with
+# VERIF_AS_PROPERTY=<that property> ./check <this check>
+python3 - <<'P'
+import json, glob
+for f in sorted(glob.glob('/verif/evidence/C[0-9][0-9].json')):
+    e = json.load(open(f)); c = e['coverage'].get('cross_property_observations')
+    if c: print('cross-property observations in', e['property_id'], c)
+P
